@@ -11,13 +11,14 @@ from hypothesis import strategies as st
 
 from .. import describe as D
 from .. import kioapi as K
-from ..engine import Ctx, Failure, Report, case_hash, pool_map
+from ..engine import HarnessError, Ctx, Failure, Report, case_hash, pool_map
 from ..refcodec import py_equal, to_entity, tree_from_json, tree_to_json
 from ..streams import ReadOnlySource, StreamProtocolViolation, WriteOnlySink, make_stream_writer
 from ..strategies import Profile, tree_strategy
 
 ID = "C07"
-PROFILE = Profile("conversation", long_lengths=(126, 127, 128, 129, 8191, 8192, 8193, 16384), max_array=2)
+PROFILE = Profile("conversation", long_lengths=(126, 127, 128, 129, 8191, 8192, 8193, 16384), max_array=2, long_arrays=True,
+                  long_array_lengths=(63, 64, 65, 129, 300), long_scalar_array_lengths=(1000,))
 RULE = (
     "Hypothesis-generated conversations: 1-6 messages, each a request/response payload class drawn from all 646 (or a "
     "data/nested entity class) with a generated instance, preceded by an instance of its __header_schema__ (request "
@@ -201,22 +202,31 @@ def check_with(case, kind: str, skind: str) -> list[tuple[str, str]]:
             # a real OS socket pair: the sink is the unbuffered write side (socket.makefile("wb", buffering=0))
             import socket
 
+            import threading
+
             a, b_sock = socket.socketpair()
             socks.extend([a, b_sock])
-            if len(expected) > 60000:
-                sink = io.BytesIO()  # would not fit the kernel buffer without a concurrent reader
-                getv = sink.getvalue
-            else:
-                sink = a.makefile("wb", buffering=0)
+            sink = a.makefile("wb", buffering=0)
+            received: list = []
 
-                def getv():
-                    a.shutdown(socket.SHUT_WR)
-                    chunks = []
-                    while True:
-                        c = b_sock.recv(65536)
-                        if not c:
-                            return b"".join(chunks)
-                        chunks.append(c)
+            def _drain():
+                # the peer reads concurrently: thousands of tiny unbuffered writes exhaust the kernel's per-socket buffer
+                # accounting long before their byte total would
+                while True:
+                    c = b_sock.recv(65536)
+                    if not c:
+                        return
+                    received.append(c)
+
+            drainer = threading.Thread(target=_drain, daemon=True)
+            drainer.start()
+
+            def getv():
+                a.shutdown(socket.SHUT_WR)
+                drainer.join(30)
+                if drainer.is_alive():
+                    raise HarnessError("socket drain thread did not finish")
+                return b"".join(received)
         else:
             raw = _RawNoSeek()
             sink = io.BufferedWriter(raw, buffer_size=16)
